@@ -73,9 +73,9 @@ func buildBatch(work string, srcs map[string][]byte) (*Batch, error) {
 	os.RemoveAll(dir)
 	os.MkdirAll(filepath.Join(dir, "cmd", "probe"), 0o755)
 	b := &Batch{Dir: dir, Pkgs: map[string]*batchPkg{}}
-	gomod := "module batch\n\ngo 1.23\n\nrequire (\n\tgithub.com/Khan/genqlient v0.0.0\n\tverifharness v0.0.0\n)\n\nreplace github.com/Khan/genqlient => /repo\n\nreplace verifharness => /verif/harness\n"
+	gomod := "module batch\n\ngo 1.23\n\nrequire (\n\tgithub.com/Khan/genqlient v0.0.0\n\tverifharness v0.0.0\n)\n\nreplace github.com/Khan/genqlient => " + repoRoot + "\n\nreplace verifharness => " + verifRoot + "/harness\n"
 	os.WriteFile(filepath.Join(dir, "go.mod"), []byte(gomod), 0o644)
-	sum, _ := os.ReadFile("/repo/go.sum")
+	sum, _ := os.ReadFile(repoRoot + "/go.sum")
 	os.WriteFile(filepath.Join(dir, "go.sum"), sum, 0o644)
 	names := []string{}
 	for n := range srcs {
